@@ -29,10 +29,9 @@
 (***************************************************************************)
 EXTENDS Naturals, Sequences, FiniteSets, TLC, Json
 
-CONSTANTS Scenarios,   \* sequence of scenario records (see vt/drive/userclasses.py)
-          Dev          \* deviation clauses switched on
+CONSTANTS Dev          \* deviation clauses switched on
 
-VARIABLES sc,        \* index of the scenario of this behaviour
+VARIABLES sc,        \* the scenario of this behaviour (a record, see vt/drive/userclasses.py; never changes)
           round,     \* 1 = the load under test, 2 = the follow-up load
           phase,     \* "run" | "post" | "between" | "cmp" | "end"
           stack,     \* load frames, last = innermost
@@ -50,7 +49,7 @@ vars  == <<sc, round, phase, stack, exc, instr, held, store, inited, alloc, done
 
 ----------------------------------------------------------------------------
 \* the scenario
-S        == Scenarios[sc]
+S        == sc
 Range(s) == {s[i] : i \in 1..Len(s)}
 NF       == Len(S.files)
 File(f)  == S.files[f]
@@ -123,8 +122,8 @@ DecAll(fn, times) == [c \in User |-> IF fn[c] > times THEN fn[c] - times ELSE 0]
 Raise(kind) == exc' = kind
 
 ----------------------------------------------------------------------------
-Init ==
-  /\ sc \in 1..Len(Scenarios)
+InitWith(scenarios) ==
+  /\ sc \in scenarios
   /\ round = 1 /\ phase = "run" /\ exc = ""
   /\ stack = <<Frame(MainFile, TRUE)>>
   /\ instr = [c \in User |-> 0] /\ held = {} /\ store = [c \in User |-> {}]
@@ -414,7 +413,6 @@ Next ==
   \/ CallProcessor \/ ProcsDone \/ ModelProcessor \/ Return
   \/ Unwind \/ Post \/ StartFollow \/ Follow
 
-Spec == Init /\ [][Next]_vars
 
 ----------------------------------------------------------------------------
 \* Properties
@@ -443,10 +441,11 @@ C14_15_Clean == Idle => /\ \A c \in User : instr[c] = 0 /\ store[c] = {}
                         /\ held = {}
 \* per-object storage is only ever used under instrumentation, one increment per parser at work
 C14_Balanced == /\ \A c \in User : instr[c] = Cardinality(held)
-                /\ \A c \in User : store[c] # {} => instr[c] > 0
+                /\ \A c \in User : \A u \in store[c] :
+                      instr[c] > 0 \/ (stack # <<>> /\ Top.pc = "inits" /\ FileOf(u) = Top.grp[Top.i])
 
 \* C15: nothing of a failed load stays reachable, nothing stays cached
-C15_NoRetention == (Idle /\ outcome[1] # "ok") => retained = {} /\ repo = {}
+C15_NoRetention == (Idle /\ outcome[1] # "ok") => retained = {} /\ repo \cap LoadedIn(1) = {}
 \* C15: the follow-up load equals a fresh metamodel's
 C15_FollowFresh == phase = "end" /\ round = 2 =>
                      /\ ev.b /\ outcome[2] = "ok"
